@@ -153,6 +153,8 @@ pub struct Report {
     /// free-list ids.  Padding bytes, slack after the last element and unreachable pages are left
     /// out (the library writes uninitialised padding, so raw bytes are not canonical).
     pub struct_hash: u128,
+    /// the header in the other slot if it is valid (it must be the previous commit's after a commit)
+    pub other_tx_id: Option<u64>,
     /// deviations from the pinned layout that no reader depends on (e.g. the id field of a header
     /// page, which is outside the checksummed record): reported by the write-side conformance check
     /// only, never as a structural error
@@ -418,6 +420,7 @@ impl<'a> Walk<'a> {
 /// Parses and checks `buf` as a database of page size `pagesize`, for the header `meta`.
 pub fn check_with_meta(buf: &[u8], pagesize: u64, meta: &MetaRec) -> Report {
     let mut rep = Report { num_pages: meta.num_pages, tx_id: meta.tx_id, ..Default::default() };
+    rep.other_tx_id = read_meta(buf, pagesize, 1 - meta.slot).ok().map(|m| m.tx_id);
     if meta.magic != MAGIC {
         rep.errors.push(format!("magic {:#x}", meta.magic));
     }
